@@ -61,6 +61,8 @@ def strategy(tier):
         "pick": st.integers(0, 50),
         "symlink": st.sampled_from([False, False, True]),
         # name of the input directory (it is the default prefix): dots, dashes, a leading dot, a blank
+        # the same input was documented into the same output before, under another prefix and other header characters
+        "prior": st.sampled_from([False, False, True]),
         "inname": st.sampled_from(["in", "widgets-2.1", "in", "my.project", ".proj", "v1.2.3", "In Put", "lib.cmake"]),
     })
 
@@ -229,6 +231,9 @@ def evaluate(case):
                 with open(os.path.join(other, nm), "w") as f:
                     f.write("function(zz_fn a)\nendfunction()\n")
             argv = [other] + argv
+        if case.get("prior"):
+            res.labels.append("prior-run-with-another-prefix")
+            S.run_main([a for a in argv if a != cfg and a != "-s"] + ["-p", "EarlierPrefix"], cwd=cwd)
         run = S.run_main(argv, cwd=cwd)
         if run.exc is not None or run.code != 0:
             res.fail(exc_key(run.exc) if run.exc else f"exit-{run.code}", (repr(run.exc) + run.stderr)[-300:])
